@@ -49,3 +49,50 @@ SEARCH = {'c32_query_with': ['c32_connection']}
 BOUNDED = {'C32': [dict(case='c32_connection', function='src/types/connection/cursor.rs CursorType impls (usize, i32, i64, String, f64, OpaqueCursor) and query_with through its real generic signature',
                         bound='20 cursor values over 6 cursor types (round trip) + 100 (after, before, first, last) combinations incl. i32::MIN/MAX and undecodable cursors',
                         why='cursor impls are one-line delegations to std Display/FromStr and base64+serde (assumed); the bounded run exercises the real generic instantiation that the await-erased kernel abstracts')]}
+
+
+# ----------------------------------------------------------------------------------------------------------------------
+# page info: start / end cursors are the encodings of the first / last edge cursor
+from vx.unit import ClosureMatch  # noqa: E402
+
+CT = 'src/types/connection/connection_type.rs'
+
+PAGE_SHIMS = r'''
+pub trait CursorType: Sized {
+    spec fn spec_encode(&self) -> Seq<char>;
+    fn encode_cursor(&self) -> (r: String) ensures r@ == self.spec_encode();
+}
+// field-subset shims (conformance-checked) of Edge / Connection; PageInfo is extracted verbatim
+pub struct Edge<Cursor> { pub cursor: Cursor }
+pub struct Connection<Cursor> { pub edges: Vec<Edge<Cursor>>, pub has_previous_page: bool, pub has_next_page: bool }
+// <[T]>::first / last (std, assumed)
+#[verifier::external_body]
+pub fn vec_first<T>(v: &Vec<T>) -> (r: Option<&T>) ensures match r { Some(x) => v@.len() > 0 && *x == v@[0], None => v@.len() == 0 } { unimplemented!() }
+#[verifier::external_body]
+pub fn vec_last<T>(v: &Vec<T>) -> (r: Option<&T>) ensures match r { Some(x) => v@.len() > 0 && *x == v@[v@.len() - 1], None => v@.len() == 0 } { unimplemented!() }
+'''
+
+
+def page_info_unit(kf):
+    u = Unit('c32_page_info', ['C32'], 'page_info: start / end cursors are the encodings of the first / last edge cursor; the two flags are copied')
+    u.kf = kf
+    u.trusted(PAGE_SHIMS, 'connection shims')
+    u.shim_conformance(CT, ['struct Connection'], [('edges', 'Vec<Edge<Cursor, Node, EdgeFields, EdgeName>>'), ('has_previous_page', 'bool'), ('has_next_page', 'bool')])
+    u.shim_conformance('src/types/connection/edge.rs', ['struct Edge'], [('cursor', 'Cursor')])
+    u.extract_type('src/types/connection/page_info.rs', ['struct PageInfo'])
+    for flavour in ['DisableNodesField', 'EnableNodesField']:
+        impl = f'impl<Cursor, Node, ConnectionFields, EdgeFields, Name, EdgeName> Connection<Cursor, Node, ConnectionFields, EdgeFields, Name, EdgeName, {flavour}>'
+        u.extract_fn(CT, [impl, 'fn page_info'], name=f'page_info_{flavour}', label=f'{CT}::impl Connection<.., {flavour}>::fn page_info',
+                     sig_rewrites=[AwaitErase(), ReSub(r'fn page_info\(&self\)', 'fn page_info<Cursor: CursorType>(this: &Connection<Cursor>)')],
+                     rewrites=[AwaitErase(), Sub('self.edges.first()', 'vec_first(&this.edges)', rule='R-ty'), Sub('self.edges.last()', 'vec_last(&this.edges)', rule='R-ty'),
+                               ClosureMatch('opt.map', count=2), Sub('self.', 'this.', count='+', rule='R-self')],
+                     ensures=['r.has_previous_page == this.has_previous_page && r.has_next_page == this.has_next_page',
+                              'match r.start_cursor { Some(c) => this.edges@.len() > 0 && c@ == this.edges@[0].cursor.spec_encode(), None => this.edges@.len() == 0 }   // the FIRST edge',
+                              'match r.end_cursor { Some(c) => this.edges@.len() > 0 && c@ == this.edges@[this.edges@.len() - 1].cursor.spec_encode(), None => this.edges@.len() == 0 }   // the LAST edge'])
+    u.assume('CursorType::encode_cursor is abstract (spec_encode); the cursor codecs themselves are the bounded round-trip table c32_connection')
+    u.search_case('connection_type.rs', 'c32_connection')
+    return u
+
+
+UNITS['c32_page_info'] = (['C32'], page_info_unit)
+SEARCH['c32_page_info'] = ['c32_connection']
